@@ -453,7 +453,7 @@ def shrink_case(prop, tie, exe, tier, scratch, ops, still_fails, budget=40):
 
 # ---------------------------------------------------------------- main flow
 
-def check(pid, tier, seed, replay_path):
+def check(pid, tier, seed, replay_path, replay_tie=None):
     t0 = time.time()
     prop = load_prop(pid)
     known = load_known(pid)
@@ -476,6 +476,8 @@ def check(pid, tier, seed, replay_path):
         corr_broken = []
         nt_prefixes = tuple(prop.get("nontrivial_prefixes", ["ok"]))
         for tie in prop.get("ties", []):
+            if replay_path and replay_tie and tie["name"] != replay_tie:
+                continue
             tr = {"name": tie["name"]}
             tie_reports.append(tr)
             exe, out, dt = build_harness(prop, tie, scratch)
@@ -527,7 +529,16 @@ def check(pid, tier, seed, replay_path):
                         any_fail_input.append(f)
                 for m in an["mismatches"][:50]:
                     m["tie"] = tie["name"]
-                    corr_broken.append({"tie": tie["name"], "why": "model and implementation disagree", "case": m})
+                    if tie.get("mismatch_is_violation"):
+                        # V-tie: the Lean monitor rejected a recorded trace of the real system
+                        k = m["first_diff"]
+                        any_fail_input.append({"case": m["case"], "sig": "monitor-reject", "tie": tie["name"],
+                                               "ops": m["ops"], "desc": "monitor verdict %r on event %d %r (implementation trace says %r)" % (
+                                                   m["model"][k] if k < len(m["model"]) else None, k,
+                                                   m["ops"][k] if k < len(m["ops"]) else None,
+                                                   m["impl"][k] if k < len(m["impl"]) else None)})
+                    else:
+                        corr_broken.append({"tie": tie["name"], "why": "model and implementation disagree", "case": m})
                 shutil.rmtree(outdir, ignore_errors=True)
                 if any_fail_input:
                     break
@@ -562,6 +573,8 @@ def check(pid, tier, seed, replay_path):
                     shutil.rmtree(od, ignore_errors=True)
                     one_pass(prop, tie, exe, seed, 0, tier, od, rp)
                     a = analyse(tie, od, nt_prefixes)
+                    if sig == "monitor-reject":
+                        return bool(a["mismatches"])
                     return any(x["sig"] == sig for x in a["oracle_fails"])
                 if f0.get("tie") == tie["name"]:
                     f0["ops_shrunk"] = shrink_case(prop, tie, exe, tier, scratch, f0["ops"], still)
@@ -648,11 +661,13 @@ def main(argv):
     a = ap.parse_args(argv)
     seed = int(os.environ.get("VERIF_SEED") or "1")
     replay = a.replay
+    replay_tie = None
     if replay:
         # a replay file is either our JSON or a raw ops file
         try:
             d = json.load(open(replay))
             ops = d.get("ops") or []
+            replay_tie = d.get("tie")
             tmp = os.path.join(ROOT, ".scratch", "replay-%d.ops" % os.getpid())
             os.makedirs(os.path.dirname(tmp), exist_ok=True)
             with open(tmp, "w") as fh:
@@ -663,7 +678,7 @@ def main(argv):
                 replay = None
         except (ValueError, UnicodeDecodeError):
             pass
-    sys.exit(check(a.prop, a.tier, seed, replay))
+    sys.exit(check(a.prop, a.tier, seed, replay, replay_tie))
 
 
 if __name__ == "__main__":
